@@ -155,11 +155,11 @@ func (s Step) nodeService() *structs.NodeService {
 		return nil
 	}
 	ns := &structs.NodeService{
-		Kind:    structs.ServiceKind(s.Kind),
-		ID:      s.SvcID,
-		Service: s.Svc,
-		Tags:    s.Tags,
-		Port:    s.Port,
+		Kind:     structs.ServiceKind(s.Kind),
+		ID:       s.SvcID,
+		Service:  s.Svc,
+		Tags:     s.Tags,
+		Port:     s.Port,
 		PeerName: s.Peer,
 	}
 	if ns.ID == "" {
